@@ -280,7 +280,9 @@ def check(case, ctx):
             base_ = {"pg": np.array([pgv]), "uc": np.array([ucv[k]])}
             solk = solve_ivp(lambda t, y: R_.rhs(y, base_, t)[0], [tk[k], tk[k + 1]], np.array(xk, dtype=float), method="DOP853", rtol=1e-13, atol=1e-13)
             hk = (tk[k + 1] - tk[k]) / max(Ms)
-            bound = {"expl_euler": 40 * hk}.get(case["scheme"], 2e-3 * (hk / 0.1) ** 3 + 1e-6)
+            # relative to the size of the state: the one-interval error of any scheme is proportional to it
+            scale_ = 1.0 + max(float(np.max(np.abs(xk))), float(np.max(np.abs(solk.y[:, -1]))))
+            bound = {"expl_euler": 10 * hk}.get(case["scheme"], 2e-3 * (hk / 0.1) ** 3 + 1e-6) * scale_
             if float(np.max(np.abs(xf - solk.y[:, -1]))) > bound:
                 fails.append(Fail("discrete_system-not-the-same-flow", feats, {"interval": k, "discrete_system": xf, "reference_flow": solk.y[:, -1], "bound": bound}))
         except Exception as ex:
